@@ -27,6 +27,16 @@ fn run_finder(
     ) {
         return all;
     }
+    // the order (and repetition) of the codons handed to Finder::new is part of the input
+    if starts.windows(2).any(|w| w[0] > w[1]) {
+        log.oblige("orf_start_codons_not_ascending");
+    }
+    if stops.windows(2).any(|w| w[0] > w[1]) {
+        log.oblige("orf_stop_codons_not_ascending");
+    }
+    if starts.windows(2).any(|w| w[0] == w[1]) || stops.windows(2).any(|w| w[0] == w[1]) {
+        log.oblige("orf_repeated_codon");
+    }
     let finder = Finder::new(starts.iter().collect(), stops.iter().collect(), min_len);
     for t in seqs {
         let mut got: Vec<(usize, usize, i8)> = vec![];
@@ -68,11 +78,16 @@ const STD_STARTS: [Codon; 1] = [*b"ATG"];
 const STD_STOPS: [Codon; 3] = [*b"TGA", *b"TAG", *b"TAA"];
 
 fn codon_sets(variant: u64) -> (Vec<Codon>, Vec<Codon>, Vec<u8>) {
-    match variant % 4 {
+    match variant % 8 {
         0 => (STD_STARTS.to_vec(), STD_STOPS.to_vec(), b"ACGT".to_vec()),
         1 => (vec![*b"ATG", *b"GTG", *b"TTG"], vec![*b"TAA"], b"ATG".to_vec()),
         2 => (vec![[0, 255, 7], [7, 7, 7]], vec![[1, 1, 1], [255, 0, 7]], vec![0, 1, 7, 255]),
-        _ => (vec![*b"atg"], vec![*b"taa", *b"tag"], b"atgATG".to_vec()),
+        3 => (vec![*b"atg"], vec![*b"taa", *b"tag"], b"atgATG".to_vec()),
+        // the same sets in other orders (descending, rotated) and with a codon given twice
+        4 => (vec![*b"TTG", *b"GTG", *b"ATG"], vec![*b"TAA", *b"TAG", *b"TGA"], b"ATG".to_vec()),
+        5 => (vec![*b"GTG", *b"ATG", *b"TTG", *b"ATG"], vec![*b"TAG", *b"TAA", *b"TAG"], b"ATG".to_vec()),
+        6 => (vec![[7, 7, 7], [0, 255, 7], [7, 0, 7]], vec![[255, 0, 7], [1, 1, 1]], vec![0, 1, 7, 255]),
+        _ => (vec![*b"ATG", *b"ATG"], vec![*b"TGA", *b"TGA", *b"TAA"], b"ACGT".to_vec()),
     }
 }
 
@@ -212,7 +227,7 @@ pub fn drive(log: &mut Log) {
         }
         let mut rng = Rng::new(seed, 31, case);
         let (starts, stops, alpha) = codon_sets(i);
-        if i % 4 >= 2 {
+        if i % 8 == 2 || i % 8 == 3 || i % 8 == 6 {
             log.oblige("orf_nonstandard_codons");
         }
         let n = match i % 3 {
